@@ -79,10 +79,9 @@ impl NumberSuffix {
         }
     }
 
-    /// Check the first several characters in a buffer to see if it matches a
-    /// number suffix.
+    /// Check whether a buffer is exactly a number suffix.
     pub fn from_chars(chars: &[char]) -> Option<Self> {
-        if chars.len() < 2 {
+        if chars.len() != 2 {
             return None;
         }
 
